@@ -92,6 +92,16 @@ Theorem C20_sr_inplace_all_mutators :
 Proof. exact sr_inplace_all_mutators. Qed.
 Print Assumptions C20_sr_inplace_all_mutators.
 
+(* decrypting / encrypting own media with key material taken from a SliceReader-decoded SHARED init segment
+   (or from a DecryptInfo shared between goroutines) writes no input according to the table *)
+Theorem C20_sr_init_decrypt_safe :
+  prog_safe 1 [] init_sr_prog = true /\
+  input_ids (flat_map writes (compile 1 [] init_sr_prog)) = [] /\
+  pl 1 (final_state 1 [] init_sr_prog) 1 = Input 0 /\
+  input_ids (flat_map writes (compile 1 [] [ADecode (SIn 0) 0; ADecryptInit 0 1; ADecodeSR (SIn 1) 2; ADecryptWith 2 (SObj 1)])) = [1%nat].
+Proof. exact init_sr_decrypt_safe. Qed.
+Print Assumptions C20_sr_init_decrypt_safe.
+
 (* why the property excludes registry modification *)
 Theorem C20_registry_write_races : is_interleaving reg_sched reg_progs /\ ~ race_free reg_sched.
 Proof. exact registry_write_races. Qed.
